@@ -20,3 +20,4 @@ import EmuVerif.Props.C20
 #print axioms EmuVerif.Props.C20.lower_bound_preserved
 #print axioms EmuVerif.Props.C20.upper_bound_preserved
 #print axioms EmuVerif.Props.C20.float_mask_underflow_counterexample
+#print axioms EmuVerif.Props.C20.mask_variants_agree
